@@ -120,7 +120,7 @@ def shard(ctx):
     rng = ctx.rng
     D = Drivers()
     P = D.P
-    n = ctx.scale(30000, 1500000)
+    n = ctx.scale(120000, 1500000)
     drivers = ('basic', 'basic', 'stateful', 'proofexp')
 
     def W(**w):
@@ -262,7 +262,7 @@ def shard(ctx):
                     ctx.count('inst:potential_capture_not_judged')
                     continue
             conc = rp.fold(conc_e, rng, rng.choice((0.0, 0.6)))
-            if forced is None and rng.random() < 0.2 and len(tb.metavar_ids(conc_e)) >= 1:
+            if forced is None and rng.random() < 0.35 and len(tb.metavar_ids(conc_e)) >= 1:
                 # the premise is spelled as a partial notation node: only some metavariables are bound by the node itself
                 from frozendict import frozendict
                 base_e = rp.rand_term(rng, rng.randint(1, 2), meta=True, notation=0.2, mvs=(0, 1, 2), substs=False, constrained=0.0)
